@@ -280,8 +280,8 @@ def stepReq (st : St) (ws ows : List String) : St × String :=
             if status == 401 then (st1, s!"ok login:invalid/{match basic with
               | Option.none => "no-credentials"
               | some (n, _) =>
-                if (st.cfg.users.lookup n).isNone then "unknown-raw-name"
-                else if (st.cfg.users.lookup (st.normF n)).isNone then "unknown-normalised-name"
+                if (st.cfg.users.lookup (st.normF n)).isNone then
+                  (if (st.cfg.users.lookup n).isSome then "unknown-normalised-name" else "unknown-name")
                 else "wrong-password"}")
             else if !orc.isEmpty then (st1, fail "oracle" (" ".intercalate orc))
             else (st1, fail "model" s!"login expected 401 observed status={status}")
